@@ -131,8 +131,14 @@ Lemma set_vflag_reenable st k : set_vflag (set_vflag st k false) k (fget (vflags
 Proof. destruct st as [a l p al bu c cf]. destruct cf. destruct k; reflexivity. Qed.
 
 (* every entry path of a disabled vault operation is rejected with the "disabled" error *)
-Lemma vault_deposit_disabled u z sent st : dep_on (conf st) = false -> deposit u z sent st = Err E_DISABLED.
-Proof. intros H. unfold deposit. rewrite H. reflexivity. Qed.
+Lemma vault_deposit_disabled u z sent st : dep_on (conf st) = false ->
+  failed (deposit u z sent st) /\
+  (kind st || (sent <=? get (ab st) u) = true -> deposit u z sent st = Err E_DISABLED).
+Proof.
+  intros H. unfold deposit. rewrite H. split.
+  - destruct (ensure (kind st || (sent <=? get (ab st) u)) E_OTHER); cbn; auto.
+  - intros ->. reflexivity.
+Qed.
 
 Lemma vault_withdraw_disabled u a st : wd_on (conf st) = false -> failed (withdraw u a st) /\
   (has (lp st) u && negb (Nat.eqb u VAULT) = true -> 0 <= a <= get (lp st) u -> withdraw u a st = Err E_DISABLED).
@@ -152,8 +158,10 @@ Proof. intros H. destruct m; cbn [bind failed]; auto. Qed.
 
 Lemma vault_disabled_paths st :
   (dep_on (conf st) = false -> forall u z sent L,
-     failed (step st (ODeposit u z sent)) /\ (is_user st u = true -> step st (ODeposit u z sent) = Err E_DISABLED) /\
-     run_action L (ADeposit z) st = Err E_DISABLED) /\
+     failed (step st (ODeposit u z sent)) /\
+     (is_user st u = true -> kind st || (sent <=? get (ab st) u) = true -> step st (ODeposit u z sent) = Err E_DISABLED) /\
+     failed (run_action L (ADeposit z) st) /\
+     (kind st || (z <=? get (ab st) ADV) = true -> run_action L (ADeposit z) st = Err E_DISABLED)) /\
   (wd_on (conf st) = false -> forall u a L,
      failed (step st (OWithdraw u a)) /\ failed (run_action L (AWithdraw a) st)) /\
   (fl_on (conf st) = false -> forall u z pre s L,
@@ -161,10 +169,11 @@ Lemma vault_disabled_paths st :
      (is_user st u = true -> step st (ORouterLoan u z pre s) = Err E_DISABLED)).
 Proof.
   split; [|split].
-  - intros H u z sent L. cbn [step run_action]. rewrite !vault_deposit_disabled by auto.
-    split; [|split]; auto.
-    + apply failed_bind_failed. intros _. exact I.
-    + intros ->. reflexivity.
+  - intros H u z sent L. cbn [step run_action].
+    destruct (vault_deposit_disabled u z sent st H) as [F1 E1]. destruct (vault_deposit_disabled ADV z z st H) as [F2 E2].
+    split; [|split; [|split]]; auto.
+    + apply failed_bind_failed. intros _. exact F1.
+    + intros -> Hf. cbn [ensure bind]. auto.
   - intros H u a L. cbn [step run_action]. destruct (vault_withdraw_disabled u a st H) as [F _].
     split; [|apply vault_withdraw_disabled; auto]. apply failed_bind_failed. intros _. exact F.
   - intros H u z pre s L. cbn [step run_action]. unfold router_loan. rewrite !vault_loan_disabled by auto.
